@@ -389,6 +389,8 @@ def explore_case(harness, case, seed, max_paths=2000, feasibility="linear", time
     CTX.reset()
     C._opaque_decls.clear()
     CTX.ctl.feasibility = feasibility
+    CTX.merge = bool(getattr(harness, "MERGE", False))
+    CTX.abstract_div = bool(getattr(harness, "ABSTRACT_DIV", False))
     H = HSym(case, seed)
     run = CaseRun(case)
     spec = harness.patch_spec(case) if hasattr(harness, "patch_spec") else {}
@@ -436,6 +438,9 @@ def explore_case(harness, case, seed, max_paths=2000, feasibility="linear", time
                     run.defined.append((pid, kind, term, pc, pa))
             todo.extend(CTX.ctl.pending)
             pid += 1
+    for k, (lname, lclaim, lpc, lpa) in enumerate(CTX.lemmas):
+        H.obligations.append(Obligation(case=case.name, name=f"lemma:{lname}#{k}", kind="lemma", claim=lclaim, pc=lpc, path_assume=lpa,
+                                        path_id=-1, choices={}, slice=False, timeout=H.default_timeout, lu_log=[]))
     run.obligations = H.obligations
     run.assume = list(CTX.assume)
     run.ranges = dict(H.ranges)
@@ -462,6 +467,7 @@ class _CtxSnapshot:
         self.opaque_eval = dict(ctx.opaque_eval)
         self.inputs = dict(ctx.inputs)
         self.uninit = list(ctx.uninit)
+        self.quot = dict(ctx.quot)
 
 
 # --------------------------------------------------------------------------------------
@@ -682,6 +688,7 @@ def run_harness(harness, tier="quick", seed=0, replay=None, verbose=True):
 
     inconclusive = []
     sat_obls = []
+    lemma_failed = []
     discharged = 0
     solver_time = 0.0
     reach_ok = {}
@@ -695,6 +702,8 @@ def run_harness(harness, tier="quick", seed=0, replay=None, verbose=True):
             obj.result = res
             if res.status == "unsat":
                 discharged += 1
+            elif res.status == "sat" and obj.kind == "lemma":
+                lemma_failed.append(obj)
             elif res.status == "sat":
                 sat_obls.append((r, obj))
             else:
@@ -715,6 +724,8 @@ def run_harness(harness, tier="quick", seed=0, replay=None, verbose=True):
                 inconclusive.append((r, Obligation(case=r.case.name, name=f"defined:path{obj[0]}", kind="defined"), res))
 
     problems = []
+    if lemma_failed:
+        problems.append(f"merge lemma not valid (engine staging unjustified): {[o.key for o in lemma_failed[:3]]}")
     if disagreements:
         problems.append(f"solver disagreement: {disagreements[:3]}")
     # vacuity: every case needs at least one path proven reachable
@@ -729,7 +740,7 @@ def run_harness(harness, tier="quick", seed=0, replay=None, verbose=True):
     still_inconclusive = []
     for (r, o, res) in inconclusive:
         found = None
-        if o.kind in ("eq", "bool", "unreachable") and o.claim is not None:
+        if o.kind in ("eq", "bool", "unreachable") and o.claim is not None and o.pc is not None:
             for _ in range(getattr(harness, "HUNT_SAMPLES", 40)):
                 vals = sample_valuation(r, rng)
                 env = feval.Env(r.ctx, vals, o.lu_log, rng)
@@ -800,9 +811,12 @@ def run_harness(harness, tier="quick", seed=0, replay=None, verbose=True):
         if k["id"] not in seen_known:
             seen_known.add(k["id"])
             print(f"KNOWN-FINDING: property={pid} {k['id']}: {k['what']} (e.g. {o.case}/{o.name}, replay={path})", flush=True)
-    for o, path, info in violations:
-        print(f"VIOLATION property={pid} replay={path}", flush=True)
-        log(f"    obligation {o.case}/{o.name} ({o.kind}) observed={info} note={o.note}")
+    for n, (o, path, info) in enumerate(violations):
+        if n < 8:
+            print(f"VIOLATION property={pid} replay={path}", flush=True)
+            log(f"    obligation {o.case}/{o.name} ({o.kind}) observed={info} note={o.note}")
+    if len(violations) > 8:
+        log(f"[{pid}] ... {len(violations) - 8} more violations (replay files written)")
     for (r, o, res) in inconclusive:
         log(f"[{pid}] INCONCLUSIVE {o.case}/{o.name}: {res.status} {res.detail[:100]} ({res.time:.1f}s)")
     for (o, info) in unreproduced:
